@@ -25,7 +25,7 @@ EXPLANATION = (
 NOT_DECIDED = ["bytes identical to the embedded file; content type; pixel size", "that no image is invented (relationship parsing is value level)", "which image records a reader filters out or reuses by identity (orphan relationships, per-document caches keyed by object number)"]
 TRUSTED = ["may-raise table (listed in the explanation); string methods, slicing, dataclass constructors and the dimension sniffers are assumed not to raise",
            "CFG path enumeration (cap 4096 paths per loop body; a capped loop is residual)"]
-FLOORS = {"C14-JPEG": 8, "C14-PAIR": 12, "C14-BYTES": 20, "C14-VIEW": 6, "C14-REF": 1, "C14-CHAIN": 8}
+FLOORS = {"C14-JPEG": 8, "C14-PAIR": 12, "C14-BYTES": 20, "C14-VIEW": 6, "C14-REF": 1, "C14-CHAIN": 8, "C14-TYPE": 3}
 
 MAY_RAISE_CALLS = {"read_bytes", "get_image_data", "read_xml_root", "read_text", "read", "open_stream", "fromhex", "unpack", "unpack_from", "b64decode", "a2b_hex", "unhexlify", "decompress"}
 MAY_RAISE_FUNCS = {"int", "float", "bytes.fromhex", "struct.unpack", "struct.unpack_from", "base64.b64decode"}
@@ -450,4 +450,56 @@ def rule_chain(ctx: Ctx) -> RuleReport:
     return rep
 
 
-RULES = [rule_pair, rule_bytes, rule_view, rule_ref, rule_jpeg, rule_chain]
+def rule_type(ctx: Ctx) -> RuleReport:
+    """'the matching content type': a content-type table keyed by file extension is consulted with the extension lower-cased
+    (package part names keep the case the producer used: Pictures/IMG_0042.JPG)."""
+    rep = RuleReport("C14-TYPE", "content types looked up by file extension: the extension is lower-cased before the table is consulted (or the lookup is mimetypes.guess_type, which ignores case)")
+    n = 0
+    for m in ctx.p.modules.values():
+        if "/tests/" in m.rel or not m.rel.startswith(X):
+            continue
+        tables = set()
+        for name, val in m.assigns.items():
+            v = ctx.folder.fold(m, val) if isinstance(val, ast.Dict) else None
+            if isinstance(v, dict) and v and all(isinstance(x, str) and "/" in x for x in v.values()) and all(isinstance(k, str) for k in v):
+                tables.add(name)
+        if not tables:
+            continue
+        for fi in m.functions.values():
+            for c in ast.walk(fi.node):
+                key = None
+                if isinstance(c, ast.Call) and isinstance(c.func, ast.Attribute) and c.func.attr == "get" and isinstance(c.func.value, ast.Name) and c.func.value.id in tables and c.args:
+                    key = c.args[0]
+                elif isinstance(c, ast.Subscript) and isinstance(c.value, ast.Name) and c.value.id in tables and isinstance(c.ctx, ast.Load):
+                    key = c.slice
+                if key is None:
+                    continue
+                # derivation of the key: follow single local assignments
+                chain = [key]
+                cur = key
+                for _ in range(4):
+                    if isinstance(cur, ast.Name):
+                        defs = [a.value for a in walk_own(fi.node) if isinstance(a, ast.Assign) and len(a.targets) == 1 and isinstance(a.targets[0], ast.Name) and a.targets[0].id == cur.id]
+                        if len(defs) != 1:
+                            break
+                        cur = defs[0]
+                        chain.append(cur)
+                    else:
+                        break
+                txt = " <- ".join(norm(x) for x in chain)
+                from_ext = any(isinstance(x, ast.Call) and isinstance(x.func, ast.Attribute) and x.func.attr in ("rsplit", "split", "splitext", "rpartition") for e in chain for x in ast.walk(e)) or any(isinstance(x, ast.Attribute) and x.attr == "suffix" for e in chain for x in ast.walk(e))
+                if not from_ext:
+                    continue
+                n += 1
+                rep.unit(fi.key)
+                lowered = any(isinstance(x, ast.Call) and isinstance(x.func, ast.Attribute) and x.func.attr in ("lower", "casefold") for e in chain for x in ast.walk(e))
+                if lowered:
+                    rep.ok({"lookup": f"{fi.qual}: {short(c, 50)}", "key": "lower-cased extension"})
+                else:
+                    rep.fail(Finding("C14-TYPE", m.rel, fi.qual, "case-sensitive extension lookup: " + anorm(key, fi.node), f"`{short(c, 60)}` looks the file extension up as it is spelled in the package ({txt[:80]}): `IMG_0042.JPG` or `Logo.PNG` get the fallback type instead of image/jpeg / image/png", line=c.lineno))
+    if n < 3:
+        raise AnalysisError(f"C14-TYPE: only {n} extension-keyed content-type lookups found (3 confirmed: docx, pptx, xlsx)")
+    return rep
+
+
+RULES = [rule_pair, rule_bytes, rule_view, rule_ref, rule_jpeg, rule_chain, rule_type]
